@@ -176,7 +176,7 @@ func checkUpdateValidators(c *core.Ctx) {
 		return
 	}
 	var gnc, snv, edu *core.Site
-	for _, s := range core.Sites(fn) {
+	for _, s := range c.GroupSites(fn) {
 		switch {
 		case methodName(s) == "GetNewCandidates":
 			gnc = s
@@ -248,7 +248,11 @@ func checkUpdateValidators(c *core.Ctx) {
 	c.Check(strings.HasSuffix(core.Path(edu.Arg(0)), ".PubKey.Bytes()"), rule, "updateValidators/key", edu.Pos(), "the update carries the candidate's own public key", "the validator update does not carry the selected candidate's key")
 	// removed validators: a composite ValidatorUpdate with Power 0 appended under !persisted
 	zero := false
-	for _, b := range fn.Blocks {
+	var grpBlocks []*ssa.BasicBlock
+	for _, g := range append([]*ssa.Function{fn}, c.Helpers(fn)...) {
+		grpBlocks = append(grpBlocks, g.Blocks...)
+	}
+	for _, b := range grpBlocks {
 		for _, in := range b.Instrs {
 			st, ok := in.(*ssa.Store)
 			if !ok {
@@ -409,7 +413,7 @@ func checkKick(c *core.Ctx, rec, kick *ssa.Function) {
 		return
 	}
 	n := 0
-	for _, s := range core.Sites(rec) {
+	for _, s := range c.GroupSites(rec) {
 		if s.Common.StaticCallee() != kick {
 			continue
 		}
@@ -422,7 +426,7 @@ func checkKick(c *core.Ctx, rec, kick *ssa.Function) {
 	c.Check(n == 2, rule, "recalculateStakes/shape", rec.Pos(), "two kick sites (incoming update loses / smallest stake loses)", fmt.Sprintf("%d stakeKick sites", n))
 	// polarity: the incoming update is kicked only under smallestStake.Cmp(update.BipValue) == 1
 	pol := false
-	for _, s := range core.Sites(rec) {
+	for _, s := range c.GroupSites(rec) {
 		if s.Common.StaticCallee() != kick {
 			continue
 		}
